@@ -60,13 +60,72 @@ def _init():
 UNIT_VARIANTS = [("nm", "ms", "molecule"), ("mm", "min", "µmol"), ("dm", "s", "mol"), ("µm", "h", "nmol"), ("cm", "µs", "molecule")]
 
 
+def _scaled(v, f):
+    return {k: x * f for k, x in v.items()} if isinstance(v, dict) else v * f
+
+
+def _other_parameters(d):
+    """The same description with other parameter values (volumes, surfaces, distances, rate and diffusion constants)."""
+    d = json.loads(json.dumps(d))
+    for sp in d["network"]["species"]:
+        if "D" in sp:
+            sp["D"] = _scaled(sp["D"], 2.0)
+    for r in d["network"]["reactions"]:
+        for k, f in (("k+", 3.0), ("k-", 5.0)):
+            if k in r:
+                r[k] = _scaled(r[k], f)
+    if d["space"]["type"] == "grid":
+        d["space"]["cell_vol"] *= 8.0
+    else:
+        for n in d["space"]["nodes"]:
+            n["volume"] *= 8.0
+        for e in d["space"]["edges"]:
+            e["surface"] *= 2.0
+            e["distance"] *= 0.5
+    return d
+
+
+def _edit_in_place(system, d):
+    """Brings a system built from _other_parameters(d) to the parameters of d through the objects' own attributes."""
+    for sp, e in zip(system.network.species, d["network"]["species"]):
+        if "D" in e:
+            sp.D = e["D"]
+    for r, e in zip(system.network.reactions, d["network"]["reactions"]):
+        if "k+" in e:
+            r.kf = e["k+"]
+        if "k-" in e:
+            r.kr = e["k-"]
+    if d["space"]["type"] == "grid":
+        system.space.cell_vol = d["space"]["cell_vol"]
+    else:
+        for n, e in zip(system.space.nodes, d["space"]["nodes"]):
+            n.volume = e["volume"]
+        for g, e in zip(system.space.edges, d["space"]["edges"]):
+            g.surface = e["surface"]
+            g.distance = e["distance"]
+
+
 def _impl(args):
-    d, flat, want, us = args
-    out = {"units": list(us) if us else None}
+    d, flat, want, us = args[:4]
+    edited = len(args) > 4 and args[4]
+    out = {"units": list(us) if us else None, "edited_in_place": bool(edited)}
     usys = UnitsSystem(space=us[0], time=us[1], quantity=us[2]) if us else UnitsSystem()
     try:
-        system = rdsystem_from_dict(json.loads(json.dumps(d)))
-        system.state = UnitArray([float(v) for v in flat], "molecule")
+        if edited:
+            # a system that was built with other parameter values and already used, then edited in place: every function
+            # has to see the values the objects hold now
+            system = rdsystem_from_dict(_other_parameters(d))
+            system.state = UnitArray([float(v) for v in flat], "molecule")
+            try:
+                kinetics.compute_dstatedt(system, units_system=usys)
+                if system.space.size() == 1:
+                    system.make_dxdtf()(0, [float(v) for v in flat])
+            except Exception:  # noqa
+                pass
+            _edit_in_place(system, d)
+        else:
+            system = rdsystem_from_dict(json.loads(json.dumps(d)))
+            system.state = UnitArray([float(v) for v in flat], "molecule")
     except Exception as e:  # noqa
         return {"build_exc": repr(e)[:300]}
     if "kin" in want:
@@ -130,7 +189,7 @@ def impl_values(cases, want=("kin", "dxdtf", "euler")):
     for m, st in cases:
         flat = [st[s][i] for s in range(len(st)) for i in range(len(st[0]))]
         us = UNIT_VARIANTS[(len(args) // 3) % len(UNIT_VARIANTS)] if len(args) % 3 == 2 else None
-        args.append((m.strengths_dict(explicit_state=False), flat, want, us))
+        args.append((m.strengths_dict(explicit_state=False), flat, want, us, len(args) % 4 == 1))
     ctx = mp.get_context("fork")
     with ctx.Pool(util.NCPU, initializer=_init) as pool:
         return pool.map(_impl, args, chunksize=max(1, len(args) // (util.NCPU * 8)))
@@ -174,6 +233,7 @@ def compare(rep, cases, spec, impl, check, props=("law",)):
                     flagged = bool(m.chem_map()[s][i])
                     rep.violation(check, "law:%s:%s" % (name, "chemostated-entry" if flagged else "free-entry"),
                                   {"function": name, "species": s, "cell": i, "got": got[k], "spec": want[k], "tolerance": tol,
+                                   "route": "system built with other parameters, used, then edited in place" if im.get("edited_in_place") else "as built",
                                    "state": [[str(v) for v in row] for row in st], "model": m.strengths_dict(explicit_state=False)},
                                   replay=repl)
                     return False
